@@ -25,7 +25,7 @@ OPS = ["sort", "remove", "split", "flip2", "crop", "bin"]
 class C15(Property):
     ID = "C15"
     SESSIONS = ["s0", "s1"]
-    RUNS = {"quick": (600, 500), "thorough": (12000, 10000)}
+    RUNS = {"quick": (5000, 4000), "thorough": (100000, 80000)}
 
     def config(self, rng, tier, faulty):
         cfg = {
